@@ -62,6 +62,12 @@ CHECKS = {
  "C15": (FE, "exhaustive truncation and byte-corruption of a corpus of valid frames covering every parser path, each mutant parsed directly and through a PacketIn event, walked, packed, printed and dumped under a non-termination budget",
          "For 73 corpus frames (mc/refs/pktcorpus.py): every truncation length; every byte position x {0x00, 0xff, b^1, b^0x80, b+1} (quick) / all 255 alternatives for the first 64 bytes (thorough); truncation x corruption of every position below the cut (thorough); checksum-repaired variants for ICMPv6. Oracle: ethernet(raw=...) and PacketIn.parsed return; walking .next terminates in bytes/None; a layer that failed has parsed == False and kept its raw input; pack(), str(), dump() return. Violations are keyed by phase and raising site, so a new site is a new violation.",
          "Backward-jump budget via sys.monitoring decides non-termination; corpus built without importing pox.", "DESIGN.md 4 C15"),
+ "C08": (MC, "breadth-first exploration over canonical states of a real POXCore (choice-sequence explorer with deviation-bounded callback behaviours, reference rendezvous model), exhaustive name-collision lattice, and controlled-thread exploration of two concurrent quit() calls",
+         "Every history of <=5 (quick) / <=6 (thorough) operations {register incl. re-registration, call_when_ready with every dependency subset and argument form, listen_to_dependencies with six sink shapes, goUp with deferral-taking handlers released inside / later in every order, release, quit} with <=2 non-default callback behaviours (raise, chained register, chained waiter) per history, one representative per distinct state; plus component names colliding with core attributes x declaration form x order; plus every schedule within 2 (3) deviations of two threads calling quit() concurrently at line granularity in core.py.",
+         "Reference model mc/refs/c08_model.py; scheduler thread neutralised, virtual sleep; the core's real locks are replaced by controlled ones in the thread scenario.", "DESIGN.md 4 C08"),
+ "C06": (MC, "exhaustive enumeration of small task programs over the yield vocabulary x environment choices on the real Scheduler.run() with an inline select hub under a virtual clock (E-seq), controlled-thread exploration of representative programs with the threaded hub (E-thr), and EpollSelect vs select.select on real sockets",
+         "Part 1: every ordered pair (thorough: triple) of task scripts over {reschedule, sleep, block+wake by sibling, Select with/without timeout, sub-task call in four shapes, Exit, raise, timers one-shot/recurring/cancelled/self-stopping} with fd readiness instants, the scheduler's priority coin and per-step virtual time as explored choices; invariants on the recorded (task, step, time) trace incl. a differential twin without the raising task. Part 2: ten programs under the threaded hub, every schedule within 2 deviations.",
+         "Virtual select ends the run at an explicit horizon; modelled primitives of mc/thr.py; GIL atomicity.", "DESIGN.md 4 C06"),
 }
 
 PENDING_REASON = "check under construction in this round (design in DESIGN.md section 4); not claimed until its harness is committed and silent on the unchanged tree"
